@@ -638,7 +638,7 @@ pub fn run_hs(cfg: &HsCfg, sc: &mut Sc) -> HsTrace {
                     // the payload buffer the altered message is read into: generous, exactly the genuine payload's size,
                     // a few bytes more, the altered message's size (an implementation that cuts the input to fit the
                     // buffer would drop appended bytes exactly when the buffer is tight)
-                    let tcap = [70000usize, plen, 70000, plen + 1, plen + 15, plen + 16, alt.len(), plen][r.below(8)];
+                    let tcap = [70000usize, plen, 70000, plen + 1, plen + 15, plen + 16, alt.len(), plen, 0, 0][r.below(10)];
                     let o = sc.ex.hs_read(rd, &alt, tcap);
                     sc.check_panic(&o, "hs_read tampered");
                     let hits_enc = tamper_hits_encrypted(&msg, &alt, fields, pub_len, plen);
